@@ -547,9 +547,10 @@ class FileSession(Session):
             setattr(cls, k, v)
 
     def _get_file_path(self):
-        f = os.path.join(self.storage_path, self.SESSION_PREFIX + self.id)
-        if not os.path.abspath(f).startswith(
-                os.path.join(self.storage_path, '')):
+        # The normalised name is what gets tested, so it is what the OS gets.
+        f = os.path.abspath(
+            os.path.join(self.storage_path, self.SESSION_PREFIX + self.id))
+        if not f.startswith(os.path.join(self.storage_path, '')):
             raise cherrypy.HTTPError(400, 'Invalid session id in cookie.')
         return f
 
